@@ -19,6 +19,8 @@ LEVEL_TEXT = ('static: must-pass-through of the context reset on all exception p
               'global, creation-time read of the context, ordered use of unordered graph sets, absence of global writes on '
               'the build path. Byte equality across processes and thread interleavings is not decided.')
 LEVEL_NOTE = 'BaseException escapes (KeyboardInterrupt) are outside "errors" and only noted'
+LEVEL_TEXT_ADD = ' Also: non-Exception interruptions on the context paths, no mutable class-level container shared by definitions, as_bytes hands out an immutable value.'
+LEVEL_TEXT = (globals().get('LEVEL_TEXT') or EXPLANATION) + LEVEL_TEXT_ADD
 TECHNIQUE = 'static analysis: must-pass-through on enumerated exception paths + ownership/lock-context + unordered-use census'
 
 GRAPH_SETS = ('_descendants', '_antecedents', '_constant_set')
